@@ -415,6 +415,45 @@ def run (fix : Bool) (c : Config) (z0 : Zone) (msgs : List Msg) : Outcome :=
     | .error (e, z) => ⟨some e, z⟩
     | .ok s' => ⟨none, s'.zone⟩
 
+/-! ## `Inbound` driven directly as a context manager
+
+`with dns.xfr.Inbound(...) as inbound: for m in msgs: if inbound.process_message(m): break` — the caller may
+stop feeding before the transfer is done and leave the block normally, or by an exception of its own. -/
+
+/-- feed messages until one completes the transfer or the caller has no more -/
+def feedLoop (fix : Bool) (s : Inbound) : List Msg → R
+  | [] => .ok s
+  | m :: ms =>
+    match procMessage fix s m with
+    | .error e => .error e
+    | .ok s' => if s'.done then .ok s' else feedLoop fix s' ms
+
+/-- `Inbound.__exit__(exc_type, exc_val, exc_tb)`: `if self.txn: self.txn.rollback()` — an open transaction is
+rolled back whether or not an exception is in flight (it is never committed here); the manager's zone is
+what it was -/
+def Inbound.exit (s : Inbound) (_excInFlight : Bool) : Zone :=
+  match s.txn with
+  | some _ => s.zone
+  | none => s.zone
+
+/-- what the caller is left with: an exception of `process_message` (if any), whether a call returned
+`True`, and the zone after `__exit__` -/
+structure Driven where
+  err : Option XErr
+  done : Bool
+  zone : Zone
+  deriving DecidableEq, Repr
+
+/-- the block `with Inbound(...) as inbound:` fed `msgs`, then left (`callerRaises`: by an exception of the
+caller's own) -/
+def drive (fix : Bool) (c : Config) (z0 : Zone) (msgs : List Msg) (callerRaises : Bool) : Driven :=
+  match Inbound.init c.origin z0 c.rdtype c.serial c.isUdp with
+  | .error e => ⟨some e, false, z0⟩
+  | .ok s =>
+    match feedLoop fix s msgs with
+    | .error (e, z) => ⟨some e, false, z⟩
+    | .ok s' => ⟨none, s'.done, s'.exit (callerRaises && !s'.done)⟩
+
 /-! ## `make_query` / `extract_serial_from_query` -/
 
 /-- `make_query(txn_manager, serial)`: the query type and the serial put into the authority SOA.
